@@ -554,22 +554,6 @@ theorem stamp_heads {h : Hist} {o : LoadOpts} {m : LMap} (hl : load h o = .ok m)
 
 /-! ### the oracle `Spec.Rev.stampOk`, evaluated on the implementation's rows, decides the statement -/
 
-theorem nodupB_iff : ∀ (l : List Id), nodupB l = true ↔ l.Nodup
-  | [] => by simp [nodupB]
-  | x :: r => by simp [nodupB, nodupB_iff r]
-
-/-- the oracle's descendant set decides `IsDesc` when every referenced revision exists -/
-theorem mem_descSet_iff (h : Hist) (hd : ∀ c ∈ ids h, ∀ p ∈ parents h c, p ∈ ids h) (roots : List Id) (x : Id) :
-    x ∈ descSet h roots ↔ IsDesc h roots x := by
-  unfold descSet Spec.Rev.closure IsDesc
-  apply mem_closureOf_iff
-  intro i hi
-  unfold children
-  apply List.filter_eq_nil_iff.mpr
-  intro c hc
-  simp only [decide_eq_true_eq]
-  exact fun hp => hi (hd c hc i hp)
-
 /-- **What a `true` verdict of the stamp oracle means** (for at least one destination): the rows
 after the command are duplicate-free and are exactly the old rows outside every destination's
 lineage (ancestors and descendants through down-revisions and dependencies, as written in the
